@@ -459,6 +459,9 @@ func lexMetricAttributes(l *Lexer) stateFn {
 func lexMetricAttribute(l *Lexer) stateFn {
 	b := l.next()
 	switch b {
+	case '|':
+		// empty field: the separator just read starts the next field, leave it to lexMetricAttributes
+		l.pos--
 	case '@':
 		input := seekUntil(l, '|')
 		v, err := strconv.ParseFloat(string(input), 64)
